@@ -7,6 +7,12 @@ O1 "plain"  (templates WITHOUT the auto-indent marker): every sequence of <=3 fr
     <=2 fragments inside every wrapper of WRAPPERS (nesting depth 1) and every single fragment inside every ordered
     pair of wrappers (nesting depth 2), x 5 Environment flag sets x {LF, CRLF} x 3 contexts, rendered by the bundled
     engine and by the stock Jinja2 of the environment.  Demand: same text, or failure where stock fails.
+    O1f "filter arguments": every width x first x blank call of `indent` (keyword and positional) and the calls of the
+    neighbouring filters that mean the same in both engines, through every carrier (expression, folded literal,
+    {% filter %}, macro result, block set) x every value of FILTER_VALUES x autoescape off/on.
+    O1h "histories" (vf/c19_lexer.py): [<=2 earlier templates ; ordinary template] in one process - the earlier templates
+    are refused by the lexer or the parser, fail while rendering, render, or are token streams dropped half way, with
+    and without the marker; the ordinary template must render as stock renders it whatever was compiled before.
 O2 "marker" (the auto-indent marker): every construct of CONSTRUCTS x every indentation of WS x every lead / trail text
     x every enclosing block of ENCLOSURES x flags x line endings x contexts.
       direct: M = render(ws + marked construct), P = render(plain construct) in the bundled engine,
@@ -1285,7 +1291,7 @@ def verify_exclusions() -> typing.Tuple[typing.List[dict], Bag]:
 def _work(job: typing.Tuple[str, typing.Any]) -> dict:
     kind, payload = job
     before = dict(tw.COUNT)
-    r = {"o1": o1_work, "o2": o2_work, "o3": o3_work, "lx": lx.work}[kind](payload)
+    r = {"o1": o1_work, "of": of_work, "o2": o2_work, "o3": o3_work, "lx": lx.work, "hs": lx.history_work}[kind](payload)
     return {"kind": kind, "count": {k: tw.COUNT[k] - before[k] for k in before}, **r}
 
 
@@ -1296,6 +1302,8 @@ def eval_case(case: dict) -> typing.Optional[typing.Tuple[dict, str]]:
         return o1_eval_case(case)
     if o == "lexer":
         return lx.eval_case(case)
+    if o == "filter":
+        return of_eval_case(case)
     if o == "marker":
         for sig, c, what in o2_eval(case, [case["ctx"]]):
             if c.get("mode") == case.get("mode"):
@@ -1347,7 +1355,19 @@ def run(ctx: Ctx) -> int:
             lx_total += 1
             if core or ctx.in_slice("LX:" + repr(sorted(case.items(), key=str)), 64):
                 lxc.append(case)
+    # histories [events ; ordinary template]: chains with one event in the core, the other option sets / line ending /
+    # sharing mode in a 1/16 slice, chains with two events in a 1/128 slice
+    hsc: typing.List[dict] = []
+    hs_total = 0
+    for chain, core in lx.history_space():
+        hs_total += 1
+        cid = "HS:" + repr(sorted(chain.items(), key=str))
+        if core or ctx.in_slice(cid, 16 if len(chain["events"]) == 1 else 128):
+            hsc.append(chain)
+    ofc = list(of_space())  # filter arguments: small, always complete
     jobs: typing.List[typing.Tuple[str, typing.Any]] = [("o3", None)]
+    jobs += [("hs", hsc[i : i + 24]) for i in range(0, len(hsc), 24)]
+    jobs += [("of", ofc[i : i + 300]) for i in range(0, len(ofc), 300)]
     jobs += [("lx", lxc[i : i + 400]) for i in range(0, len(lxc), 400)]
     jobs += [("o2", o2[i : i + 60]) for i in range(0, len(o2), 60)]
     jobs += [("o1", o1[i : i + 250]) for i in range(0, len(o1), 250)]
@@ -1361,6 +1381,8 @@ def run(ctx: Ctx) -> int:
     o2st: typing.Dict[str, int] = {}
     o3st: typing.Dict[str, typing.Any] = {}
     lxst: typing.Dict[str, int] = {}
+    hsst: typing.Dict[str, int] = {}
+    ofst: typing.Dict[str, int] = {}
     ledger: typing.Set[typing.Tuple[str, str]] = set()
     for r in results:
         ctx.bag.merge(r["bag"])
@@ -1380,6 +1402,19 @@ def run(ctx: Ctx) -> int:
             for s in r["samples"]:
                 if not any(x.get("oracle") == "lexer" for x in ctx.samples):
                     ctx.samples.append(s)
+        elif r["kind"] == "hs":
+            for k, v in r["st"].items():
+                hsst[k] = hsst.get(k, 0) + v
+            for s in r["samples"]:
+                if not any(x.get("space") == "history" for x in ctx.samples):
+                    ctx.samples.append(s)
+        elif r["kind"] == "of":
+            for k, v in r["st"].items():
+                ofst[k] = ofst.get(k, 0) + v
+            outcomes |= r["outcomes"]
+            for s in r["samples"]:
+                if not any(x.get("oracle") == "filter" for x in ctx.samples):
+                    ctx.samples.append(s)
         elif r["kind"] == "o2":
             for k, v in r["st"].items():
                 o2st[k] = o2st.get(k, 0) + v
@@ -1389,6 +1424,7 @@ def run(ctx: Ctx) -> int:
                     ctx.samples.append(s)
         else:
             o3st = r["st"]
+    hsst.update(lx.history_oracle_stats())
     excluded, exbag = verify_exclusions()
     ctx.bag.merge(exbag)
     ctx.samples.append({"oracle": "assert", "template": "A {%- assert x and one, 'msg ' ~ one -%} B", "x": [0]})
@@ -1428,6 +1464,15 @@ def run(ctx: Ctx) -> int:
         "lexer spaces: every root alternative taken by stock's lexer under every whitespace combination": int(
             all((lx.ws_name(ws), a) in ledger for ws in lx.WS8 for a in tw.ROOT_ALTERNATIVES)
         ),
+        "filter arguments: templates stock rendered": ofst.get("stock_rendered", 0),
+        "filter arguments: templates stock rejected": ofst.get("stock_raised", 0),
+        "filter arguments: stock indents an empty first line with first=true": ofst.get("expected_first_line_indented_although_empty", 0),
+        "filter arguments: stock indents blank lines with blank=true": ofst.get("expected_blank_line_indented", 0),
+        "filter arguments: stock keeps Markup under autoescape": ofst.get("expected_markup_kept", 0),
+        "histories: ordinary templates stock rendered": hsst.get("hist_stock_rendered", 0),
+        "histories: ordinary templates where a tag did something": hsst.get("hist_nontrivial", 0),
+        "histories: event templates stock refuses with the markers removed": hsst.get("hist_event_templates_stock_refuses_demarked", 0),
+        "histories: event templates stock renders with the markers removed": hsst.get("hist_event_templates_stock_renders_demarked", 0),
         "o3 assertions expected to raise": o3st.get("assert_expected_to_raise", 0),
         "o3 assertions expected to pass": o3st.get("assert_expected_to_pass", 0),
         "o3 usequery distinct reference outputs (>=6)": int(o3st.get("usequery_distinct_outputs", 0) >= 6),
@@ -1445,7 +1490,9 @@ def run(ctx: Ctx) -> int:
         ctx.stats["vacuity_guards_failed_but_violations_reported"] = failed
 
     evals = tot["evals"] + lxst.get("evals", 0) + o2st.get("evals", 0) + o3st.get("assert_evals", 0) + o3st.get("usequery_evals", 0)
+    evals += ofst.get("evals", 0) + hsst.get("hist_histories", 0)
     nontrivial = tot["nontrivial"] + lxst.get("nontrivial", 0) + o2st.get("nontrivial", 0) + o3st.get("assert_expected_to_raise", 0)
+    nontrivial += ofst.get("nontrivial", 0) + hsst.get("hist_nontrivial", 0)
     ctx.stats.update(
         template_compilations=count["compiles"],
         renders=count["renders"],
@@ -1465,6 +1512,11 @@ def run(ctx: Ctx) -> int:
         lexer_space_cases=len(lxc),
         lexer_space=lx_total,
         lexer=lxst,
+        history_chains=len(hsc),
+        history_chain_space=hs_total,
+        histories=hsst,
+        filter_argument_templates=len(ofc),
+        filter_arguments=ofst,
         lexer_root_alternatives_x_whitespace_combinations_seen_in_stock=len(ledger),
         o2_placements=len(o2),
         o2_space=o2_total,
@@ -1481,8 +1533,8 @@ def run(ctx: Ctx) -> int:
         "distinct_outcomes": len(outcomes),
         "rule": "one evaluation = one (template, Environment flags, line ending, context) compared under its oracle; "
         "templates are enumerated structurally and de-duplicated by source text, so evaluations are distinct. "
-        "Non-trivial = O1: stock rendered the template and the text differs from the template source (some tag did "
-        "something); O2: the plain construct rendered >=2 lines and the indentation in front of the marker is not "
+        "Non-trivial = O1 (also filter arguments, histories): stock rendered the template and the text differs from "
+        "the template source resp. the filtered value (some tag / the filter did something); O2: the plain construct rendered >=2 lines and the indentation in front of the marker is not "
         "empty (prefixing is observable beyond the first line); O3: assertions the reference expects to raise.",
         "bound_completed": f"O1: {len(o1) - o1a_n} of {o1_total} templates (all sequences of <=3 of {len(FRAGMENTS)} "
         f"fragments, <=2 fragments in each of {len(WRAPPERS)} wrappers, 1 fragment in each ordered wrapper pair) x "
@@ -1490,6 +1542,14 @@ def run(ctx: Ctx) -> int:
         f"templates over {len(HTML_FRAGMENTS)} HTML/Markup fragments x autoescape off/on x the same environments; "
         f"lexer sub-spaces (line statements/comments x 9 prefix configurations, raw sections; all 8 trim/lstrip/"
         f"keep_trailing_newline combinations; rendering and token stream): {len(lxc)} of {lx_total} cases; "
+        f"filter arguments: {len(ofc)} templates (all {len(indent_calls())} indent calls = {len(INDENT_WIDTHS)} widths x "
+        f"first x blank each absent/false/true, keyword and positional form, x {len(FILTER_CARRIERS)} carriers, and "
+        f"{sum(len(a) for _, a in OTHER_FILTERS)} calls of {len(OTHER_FILTERS)} neighbouring filters x 3 carriers, x autoescape "
+        f"off/on) x {len(FILTER_VALUES)} values, complete in both tiers; histories [<=2 of {len(lx.HIST_EVENTS)} events "
+        f"(refused by lexer / parser, failing at render time, rendered, abandoned token streams; with and without the "
+        f"marker) ; each of {len(lx.HIST_ORDINARY)} ordinary templates] x {len(tw.FLAGS)} flag sets x LF/CRLF x "
+        f"{len(lx.HIST_MODES)} Environment sharing modes, each in a forked child: {len(hsc)} of {hs_total} chains "
+        f"({hsst.get('hist_histories', 0)} histories); "
         f"O2: {len(o2)} of {o2_total} placements ({len(CONSTRUCTS)} "
         f"constructs x {len(ENCLOSURES)} enclosures x {len(LEADS)} leads x {len(TRAILS)} trails x {len(WS)} indentations)"
         f" x flags x line endings x contexts, {o2_ae_n} of them also with autoescape on; O3: {o3st.get('assert_evals')} assertions, "
@@ -1509,6 +1569,9 @@ def run(ctx: Ctx) -> int:
             "and the kind of line terminators are not constrained (DESIGN compares splitlines(); exactly one missing "
             "trailing terminator is tolerated, nothing more)",
             "exceptions are compared as raised/not raised; the exception family is recorded only",
+            "histories: every chain of histories runs in a child forked from a pool worker (which has compiled other "
+            "templates before); the verdict compares with stock's rendering only, and every reported history is confirmed "
+            "from its recorded case in a freshly started interpreter",
             "scoping side effects of the marker (set/macro/import inside the implicit filter block do not leak) are "
             "recorded as a statistic: the statement speaks about what the construct renders",
         ],
